@@ -119,6 +119,15 @@ void LowMemoryRescaledHmmLikelihood::computeForward_()
   }
   lScales[0] = log(scale);
 
+  logLik_ = 0;
+  size_t offset = 0;
+  if (maxSize_ == 1)
+  {
+    // The chunk is already full after the first position.
+    logLik_ += lScales[0];
+    offset = 1;
+  }
+
   vector<double>* previousLikelihood = &likelihood2_, * currentLikelihood = &likelihood1_, * tmpLikelihood;
 
   // Recursion:
@@ -128,8 +137,6 @@ void LowMemoryRescaledHmmLikelihood::computeForward_()
     nextBrkPt = *bpIt;
 
   double a;
-  logLik_ = 0;
-  size_t offset = 0;
   greater<double> cmp;
   for (size_t i = 1; i < nbSites_; i++)
   {
